@@ -110,10 +110,15 @@ AddDaysOK(x, F, neg, r, unit, floorFirst) ==
 
 (* ------------------------------ comparisons ----------------------------- *)
 CmpInt(a, b) == IF a < b THEN -1 ELSE IF a > b THEN 1 ELSE 0     \* no subtraction: operands may be near the 32-bit limits
+\* the operators <, <=, >, >=, != as written by a user must be those of the ordering c (-1, 0, 1)
+OpsOf(c) == <<B(c < 0), B(c <= 0), B(c > 0), B(c >= 0), B(c # 0)>>
+\* same type: <<cmp, ==, equal hashes, operators>>
 OrdIntOK(r0, a, b) == r0[1] = 0 /\ LET r == r0[2] IN r[1] = CmpInt(a, b) /\ r[2] = B(a = b) /\ (a = b => r[3] = 1)
+                                                  /\ r[4] = OpsOf(CmpInt(a, b))
 OrdMROK(r0, a, b) == r0[1] = 0 /\ LET r == r0[2] IN r[1] = MRCmp(a, b) /\ r[2] = B(a = b) /\ (a = b => r[3] = 1)
-\* mixed-type: <<partial_cmp as Option, eq>>
-POrdOK(r0, a, b) == r0[1] = 0 /\ LET r == r0[2] IN r[1] = Some(MRCmp(a, b)) /\ r[2] = B(a = b)
+                                                 /\ r[4] = OpsOf(MRCmp(a, b))
+\* mixed-type: <<partial_cmp as Option, ==, operators>>
+POrdOK(r0, a, b) == r0[1] = 0 /\ LET r == r0[2] IN r[1] = Some(MRCmp(a, b)) /\ r[2] = B(a = b) /\ r[3] = OpsOf(MRCmp(a, b))
 
 (* ------------------------------- clock ---------------------------------- *)
 \* c = <<y, m, d, h, mi, s, us>>
@@ -363,8 +368,9 @@ OpOK(op, a, r) ==
         r[1] = 0 /\ LET p == r[2] IN p[1] = p[2] /\ p[3][1] = 0 /\ p[3][2] = MRNeg(p[1][2])
   [] op \in {"AG.cmp_d_ts", "AG.cmp_od_ts", "AG.cmp_od_d"} ->
         r[1] = 0 /\ LET p == r[2]  c == p[3][2][1]  e == p[3][2][2] IN
-             /\ p[1] = <<0, <<Some(c), e>> >>              \* a ? b  as comparing the converted values
-             /\ p[2] = <<0, <<Some(0 - c), e>> >>          \* b ? a  the other argument order
+             /\ p[1] = <<0, <<Some(c), e, OpsOf(c)>> >>          \* a ? b  as comparing the converted values
+             /\ p[2] = <<0, <<Some(0 - c), e, OpsOf(0 - c)>> >>  \* b ? a  the other argument order
+             /\ p[3][2][4] = OpsOf(c)
   [] OTHER -> Assert(FALSE, <<"Ops: unknown operation", op>>)
 
 \* C02: whatever an operation returns as a value lies in its type's range.
